@@ -20,7 +20,7 @@ class C03(object):
     assumptions = ['a ConvergenceError on either side makes the pair inconclusive (reduction legitimately changes '
                    'conditioning); any other exception on exactly one side is a violation',
                    'cyclic class: agreement bound 1e-8*max(1,|v|) with both runs at tolerance 1e-13']
-    required_counters = ('pairs.compared', 'values.compared', 'alias.pairs', 'ic_on_alias.pairs', 'model_text.pairs', 'after_earlier_parse.pairs')
+    required_counters = ('pairs.compared', 'values.compared', 'alias.pairs', 'ic_on_alias.pairs', 'model_text.pairs', 'after_earlier_parse.pairs', 'hygiene_names.pairs')
 
     def n_cases(self, tier):
         return 300 if tier == 'quick' else 30000
@@ -46,6 +46,18 @@ class C03(object):
             nm = G.fresh_names(rng, 1, avoid=G.all_value_names(spec) + [d['name'] for d in spec['decos']])[0]
             spec['aliases'].append({'name': nm, 'target': 't'})
         case = {'kind': 'pair', 'spec': spec, 'text': G.render(spec), 'cyclic': cyclic, 'first': None}
+        if rng.random() < 0.2:
+            # an alias whose NAME looks like a number suffix, used next to literals spelled with a bare dot
+            # ('2.e5*e5'): substitution must respect token boundaries, not word boundaries
+            nm = rng.choice(['e5', 'E3', 'e1', 'e10', 'E2'])
+            tgt = spec['simul'][0]['name']
+            lit = {'e5': '2.e5', 'E3': '1.E3', 'e1': '4.e1', 'e10': '1.e10', 'E2': '3.E2'}[nm]
+            extra = ['%s = %s' % (nm, tgt), 'hyg_w = %s*%s + %s' % (lit, nm, lit),
+                     'hyg_s = %s + 0*%s' % (nm, nm)]
+            if rng.random() < 0.5:
+                extra.append('%s(0) = 0.0' % 'hyg_w')
+            case['text'] = '\n'.join(extra) + '\n' + case['text']
+            case['hygiene'] = nm
         if rng.random() < 0.3:
             # the solvers have already read something else (or the same text) before they are given the system
             if rng.random() < 0.5:
@@ -139,6 +151,8 @@ class C03(object):
         ob, b = self.solve(case['text'], True, case.get('first'))
         if case.get('first') is not None:
             rec.count('after_earlier_parse.pairs')
+        if case.get('hygiene'):
+            rec.count('hygiene_names.pairs')
         shape = ('cyclic' if case['cyclic'] else 'acyclic') + ('|alias' if spec['aliases'] else '') + \
                 ('|deco' if spec['decos'] else '') + ('|ic' if spec['ics'] else '')
         if oa != 'ok' or ob != 'ok':
